@@ -539,6 +539,8 @@ func (g *gen) reporterOp(k knobs, c *ClientSpec, idx int) Op {
 		// report once more exactly what this source reported last (or returned
 		// initially): the stack does not change
 		op.Part, op.Str = nil, "again"
+	} else if g.pct(15) {
+		op.Str = "reuse" // new content, written into the value object reported before
 	}
 	if op.Part != nil && k.share > 0 && g.pct(k.share) && op.Part.P != nil {
 		op.Part.NestX, op.Part.Share = ip(*op.Part.P), true
@@ -592,10 +594,13 @@ func (g *gen) registrar(k knobs, i int, long bool) ClientSpec {
 			un := Op{K: "unregister"}
 			if k.lifecycle || g.pct(10) {
 				un.Ctx, un.D = g.ctxKind(k.pDeadline+5, k.pExpired+5)
+			} else if g.pct(25) {
+				// a short deadline: behind a slow callback the first attempt gives up
+				un.Ctx, un.D = "deadline", int64(g.in(1, 60))*1e6
 			}
 			c.Ops = append(c.Ops, un)
-			if k.lifecycle && g.pct(40) {
-				c.Ops = append(c.Ops, Op{K: "unregister"}) // twice
+			if (k.lifecycle && g.pct(40)) || (un.Ctx != "" && g.pct(60)) {
+				c.Ops = append(c.Ops, Op{K: "unregister"}) // twice: allowed, and true means "no more calls"
 			}
 		}
 	}
